@@ -942,7 +942,7 @@ def units(tier):
             for z0 in Z0S:
                 for naming in (('lib0', 'lib2') if thorough else ('lib0',)):
                     us.append(U(desc + (z0,), naming, 'id', 'k2z' if thorough else 'k1z',
-                                orders=ALL_ORD if thorough else (None,), angles=(0.0,),
+                                orders=(None,), angles=(0.0,),
                                 bmaps=('none', 'full') if thorough else ('none',)))
         # layer centres off the mid-point: one layer, all layers; set in memory, and written and read back
         if thorough or desc[3] < 4:
@@ -1161,7 +1161,7 @@ BOUNDS = {
                  'transforms': 'every shape x 4 conventions x all options, k <= 1',
                  'routes': 'every rectangular shape x 4 conventions, mix / tq / mix refined x 4 conventions: 8 routes x 3 atmosphere '
                            'types x {None, dmplex} x {no map, full} x k <= 1; g7 base surface',
-                 'exact zero': 'every shape x 6 vertical origins x conventions 0, 2 x {None, dmplex} x {no map, full}; alphabet + {0.0, -0.0}, '
+                 'exact zero': 'every shape x 6 vertical origins x conventions 0, 2 x {no map, full}; alphabet + {0.0, -0.0}, '
                                'k <= 2 and every uniform assignment',
                  'layer centres': 'every shape and hand-made mesh: each single layer and all layers off the mid-point, in memory, '
                                   'written / read back, and with the atmosphere type assigned afterwards; k <= 1',
